@@ -70,6 +70,20 @@ class C17(Prop):
                 cls = [{"path": "classes/big%d.yml" % j, "content": {"applications": f}} for j, f in enumerate(files[:-1] or files)]
                 node = {"path": "nodes/n.yml", "content": {"classes": ["big%d" % j for j in range(len(cls))], "applications": files[-1] if len(files) > 1 else []}}
                 yield {"op": "inventory", "config": {}, "files": cls + [node], "fam": "long"}
+        # entries written as plain YAML scalars that look like numbers / booleans / nulls: the entry is its source text
+        toks = ["1.10", "1.1", "2.0", "1e3", "1000.0", "0x1F", "31", "+5", "5", "True", "true", "TRUE", "no", "~1.10", "~1e3", "~0x1F", "~True", "007", "7",
+                "1_000", ".5", "0.5", "-0", "12345678901234567890123", "app", "\"1.10\"", "'2.0'", "0o17", "15", ".inf", ".nan", "~.inf", "null", "~", "Null"]
+        for i in range(120 if tier == "quick" else 3000):
+            r = Rng(seed, "C17raw", i)
+            def lst():
+                return "[" + ", ".join(r.choice(toks) for _ in range(r.range(1, 5))) + "]"
+            files = [{"path": "classes/base.yml", "raw": "applications: %s\nclasses: []\n" % lst()},
+                     {"path": "classes/mid.yml", "raw": "classes: [base]\napplications: %s\n" % lst()},
+                     {"path": "nodes/n.yml", "raw": "classes: [mid]\napplications: %s\nparameters: {}\n" % lst()}]
+            if r.chance(1, 4):
+                files.append({"path": "classes/1.10.yml", "raw": "applications: [from_num_class]\n"})
+                files[2]["raw"] = "classes: [mid, 1.10]\napplications: %s\n" % lst()
+            yield {"op": "inventory", "config": {}, "files": files, "fam": "raw_scalars"}
         # the node's list is the accumulation of the per-file lists in merge order (with C01)
         M = 80 if tier == "quick" else 2000
         apps = ["app_a", "app_b", "app_c", "~app_a", "~app_b", "~app_c", "app_d", "~~x"]
@@ -87,7 +101,7 @@ class C17(Prop):
 
     def nontrivial(self, req, impl, reply):
         if req.get("op") == "inventory":
-            flat = [e for f in req["files"] for e in f["content"].get("applications", [])]
+            flat = [e for f in req["files"] for e in (f.get("content") or {}).get("applications", [])]
             return any(e.startswith("~") for e in flat) and any(not e.startswith("~") for e in flat)
         flat = [e for l in req["lists"] for e in l]
         return any(e.startswith("~") for e in flat) and any(not e.startswith("~") for e in flat)
